@@ -213,7 +213,7 @@ theorem C09_roundtrip (fmt : Fmt) (c0 : Option (List ChnaEntry)) (a0 b0 : Option
     have hhead := readHead_bw64 (f := f) (rest := _) hfile.symm hRlt (by omega)
     have hdOK : (dataC 4294967295 (dataOf ops) (pad (dataOf ops).length)).OK (some ⟨R, (dataOf ops).length, []⟩) :=
       ⟨by simp only [dataC]; decide, by simp only [dataC]; decide, by simp only [dataC]; omega,
-        by simp [effSize, dataC], by simp [dataC, pad_length]⟩
+        by simp [effSize, hdrSize, dataC], by simp [dataC, pad_length]⟩
     have hok : ∀ c ∈ ([] ++ bodyC fmt c0 a0 b0 4294967295 (dataOf ops) (pad (dataOf ops).length) (pendChna c0 ops) (pendAxml a0 ops)
         (pendBext b0 ops)), c.OK (some ⟨R, (dataOf ops).length, []⟩) := by
       simpa using bodyC_ok _ hds hc0 hcF ha0 haF hb0 hbF hdOK
@@ -250,7 +250,7 @@ theorem C09_roundtrip (fmt : Fmt) (c0 : Option (List ChnaEntry)) (a0 b0 : Option
     have hhead := readHead_riff (f := f) (s4 := le 4 R) (rest := _) hfile.symm (le_length 4 R)
     have hdOK : (dataC (dataOf ops).length (dataOf ops) (pad (dataOf ops).length)).OK none :=
       ⟨by simp only [dataC]; decide, by simp only [dataC]; decide, by simp only [dataC]; omega,
-        by simp [effSize, dataC], by simp [dataC, pad_length]⟩
+        by simp [effSize, hdrSize, dataC], by simp [dataC, pad_length]⟩
     have hok : ∀ c ∈ ([junkC] ++ bodyC fmt c0 a0 b0 (dataOf ops).length (dataOf ops) (pad (dataOf ops).length) (pendChna c0 ops)
         (pendAxml a0 ops) (pendBext b0 ops)), c.OK none := by
       intro c hc
